@@ -124,7 +124,8 @@ class KrausChannel(raw_types.Gate):
     def __repr__(self):
         args = ['kraus_ops=[' + ', '.join(proper_repr(op) for op in self._kraus_ops) + ']']
         if self._key is not None:
-            args.append(f'key=\'{self._key}\'')
+            # a key inside enclosing scopes cannot be given by its joined string
+            args.append(f'key={self._key!r}' if self._key.path else f'key=\'{self._key}\'')
         return f'cirq.KrausChannel({", ".join(args)})'
 
     def _json_dict_(self) -> dict[str, Any]:
